@@ -152,13 +152,76 @@ def Layout.eocd (l : Layout) : Bytes :=
 def build (l : Layout) : Bytes :=
   l.pre ++ localsBytes l.entries ++ l.gapBeforeCd ++ l.cdBytes ++ l.end64 ++ l.eocd ++ l.trailing
 
+
+/-! ### Named parts of the central record (additive; `centralRecord_eq` ties them to `centralRecord`) -/
+
+/-- the ZIP64 extended information record of the central header (APPNOTE 4.5.3): only the fields whose
+32-bit slot holds 0xFFFFFFFF, in the fixed order uncompressed size, compressed size, offset -/
+def Entry.centralZ64 (e : Entry) (off : UInt64) : Bytes :=
+  let zu := e.zU; let zc := e.zC; let zo := e.zO off
+  let n : Nat := (if zu then 8 else 0) + (if zc then 8 else 0) + (if zo then 8 else 0)
+  if n = 0 then [] else
+    le16 1 ++ le16 (UInt16.ofNat n) ++ (if zu then le64 e.usize else []) ++
+    (if zc then le64 e.csize else []) ++ (if zo then le64 off else [])
+
+/-- the whole extra field of the central record -/
+def Entry.centralExtraAll (e : Entry) (off : UInt64) : Bytes := e.centralZ64 off ++ e.centralExtra
+
+theorem centralRecord_eq (e : Entry) (off : UInt64) :
+    centralRecord e off =
+      le32 sigCentral ++ (le16 e.madeBy ++ (le16 e.versionNeeded ++ (le16 e.flagsOut ++ (le16 e.method ++
+      (le16 e.time ++ (le16 e.date ++ (le32 e.crc ++
+      (le32 (if e.zC then 0xFFFFFFFF else lo32 e.csize) ++
+      (le32 (if e.zU then 0xFFFFFFFF else lo32 e.usize) ++
+      (le16 (UInt16.ofNat e.name.length) ++ (le16 (UInt16.ofNat (e.centralExtraAll off).length) ++
+      (le16 (UInt16.ofNat e.comment.length) ++ (le16 0 ++ (le16 e.internalAttrs ++ (le32 e.externalAttrs ++
+      (le32 (if e.zO off then 0xFFFFFFFF else lo32 off) ++
+      (e.name ++ (e.centralExtraAll off ++ e.comment)))))))))))))))))) := by
+  unfold centralRecord Entry.centralExtraAll Entry.centralZ64
+  simp only [List.append_assoc]
+
+theorem centralZ64_length_le (e : Entry) (off : UInt64) : (e.centralZ64 off).length ≤ 28 := by
+  unfold Entry.centralZ64
+  cases e.zU <;> cases e.zC <;> cases e.zO off <;> simp
+
+/-! ### Extra fields (APPNOTE 4.5.1): a sequence of records `id, size, payload` -/
+
+/-- The extra bytes are a sequence of complete records none of which carries an identifier that a
+ZIP reader interprets structurally: 0x0001 (ZIP64 — `centralRecord` emits that record itself) and
+0x9901 (WinZip AES, the subject of a separate property). -/
+def extraOkAux : Nat → Bytes → Bool
+  | 0, bs => bs.isEmpty
+  | fuel + 1, bs =>
+    if bs.isEmpty then true else
+    match rd16 bs with
+    | none => false
+    | some (id, r1) =>
+      match rd16 r1 with
+      | none => false
+      | some (len, r2) =>
+        id != 0x0001 && id != 0x9901 && decide (len.toNat ≤ r2.length) &&
+          extraOkAux fuel (r2.drop len.toNat)
+
+def ExtraOk (bs : Bytes) : Prop := extraOkAux bs.length bs = true
+
+instance (bs : Bytes) : Decidable (ExtraOk bs) := by unfold ExtraOk; infer_instance
+
+example : ExtraOk [] := by decide
+example : ExtraOk (le16 0x5455 ++ le16 5 ++ [1, 0, 0, 0, 0] ++ le16 0xcafe ++ le16 0) := by decide
+example : ¬ ExtraOk (le16 0x0001 ++ le16 0) := by decide
+example : ¬ ExtraOk (le16 0x5455 ++ le16 5 ++ [1, 0]) := by decide
+
 /-- Every variable-length item fits its 16-bit length field and every offset fits 64 bits. -/
 def Entry.Fits (e : Entry) : Prop :=
   e.name.length ≤ 0xFFFF ∧ e.comment.length ≤ 0xFFFF ∧
   e.localExtra.length + (if e.localZip64 then 20 else 0) ≤ 0xFFFF ∧
   e.centralExtra.length + 28 ≤ 0xFFFF ∧ e.data.length < 2 ^ 63 ∧ e.usize.toNat < 2 ^ 63
 
+instance (e : Entry) : Decidable e.Fits := by unfold Entry.Fits; infer_instance
+
 def Layout.Fits (l : Layout) : Prop :=
   (∀ e ∈ l.entries, e.Fits) ∧ l.comment.length ≤ 0xFFFF ∧ (build l).length < 2 ^ 63
+
+instance (l : Layout) : Decidable l.Fits := by unfold Layout.Fits; infer_instance
 
 end ZipVerif.Spec.Zip
